@@ -54,6 +54,8 @@ def check(ctx):
     from ..rules import shapes as _sh10
     _sh10.check_override_reductions(ctx)
     ctx.floor('A10g', 1, 'reductions over per-scenario degree lists')
+    from ..rules import persist as _psm
+    _psm.check_decode_memos(ctx)
 
 
 from ..selftest import V  # noqa: E402
